@@ -141,6 +141,12 @@ ODD = ["\u0130", "\u00df", "\u1e9e", "\u01c5", "\u01c4", "\u01c6", "\u212a", "\u
        "\u00b5", "\u0416", "\u0436", "\u00e9", "\u00c9", "\u0131", "\u1c90", "\u0345", "\u212b", "\u2126", "\u03c3",
        "\u03c2", "\u4e2d", "\u3042"]
 
+# inputs kept from earlier findings and from the sources' own comments; parsed on every run
+FIXED = ["\u0130.ru2\u0130", "\u0130.com", "\u0130@a.com1", "a\u0130b", "\u0130", "12019\u0130.CH", "ab\u0130@x.org99",
+         "\u0130\u0130.com/x", "www.COMmunity.COM", "mr.chicken", "test1qaztest", "bob@hotmail.com123", "passwordwww.rockyou.com123",
+         "20pass2019", "020190", "#1234pass#1", "er5tgb", "deer43", "112233", "123;", "PaSSword", "1qaz2019#1pass!",
+         "http://www.google.com/a b", "a.nl.se", "x.nl", "No.1No.", "i<3U", "*0*#1<3", "19\u00b2\u0663", "q1w2e3r4", "1q2w3e4r5t"]
+
 FAMILIES = [("walk", WALKS), ("year", YEARS), ("context", CONTEXT), ("web", WEB), ("word", WORDS), ("digit", DIGITS),
             ("symbol", SYMBOLS), ("odd", ODD)]
 
